@@ -196,14 +196,33 @@ impl TypeCollector {
     ) -> Vec<EventContext> {
         let type_resolver = analyzer.get_type_resolver();
 
-        events
+        let contexts: Vec<EventContext> = events
             .iter()
             .map(|event| {
                 EventContext::new(config).from_event_info(event, visitor, &|rust_type: &str| {
                     type_resolver.borrow_mut().parse_type_structure(rust_type)
                 })
             })
-            .collect()
+            .collect();
+
+        // One listener per event name: the same event is often emitted from several places, and
+        // two listeners of the same name do not compile. Emit sites that disagree about the
+        // payload type leave the payload untyped.
+        let mut unique: Vec<EventContext> = Vec::new();
+        for ctx in contexts {
+            match unique
+                .iter_mut()
+                .find(|seen| seen.event_name == ctx.event_name)
+            {
+                Some(seen) => {
+                    if seen.typescript_payload_type != ctx.typescript_payload_type {
+                        seen.typescript_payload_type = "unknown".to_string();
+                    }
+                }
+                None => unique.push(ctx),
+            }
+        }
+        unique
     }
 
     /// Create StructContext instances from StructInfo using the provided visitor
